@@ -1,0 +1,19 @@
+//go:build verif
+
+// Contracts for the deductive checks under /verif (comment-only; compiled only with -tags verif).
+
+package state
+
+// Ghost ledger: supply is the sum of all account balances. The balance mutators of the state
+// database change it by exactly the amount moved (ghost instrumentation: assumed at call sites).
+//@ ghost supply Int
+
+//@ func StateDB.AddBalance
+//@   trusted
+//@   ensures supply == old(supply) + old(big(amount))
+//@   assigns supply
+
+//@ func StateDB.SubBalance
+//@   trusted
+//@   ensures supply == old(supply) - old(big(amount))
+//@   assigns supply
